@@ -31,7 +31,9 @@ var openRe = regexp.MustCompile(`open: \[(R[\d.]+[a-z]?)\]`)
 // mechanical rewrites applied to a scratch copy of the whole tree; the
 // property's rules must stay silent on each (tagswitch turns every switch
 // over constants into an if-chain: the loader folds such chains back, §7.3).
-var mechKinds = []string{"invert", "nest", "merge", "chain", "tagswitch", "unelse", "elseify", "elseflat", "orsplit", "contguard", "wrapcont", "incdec", "vardecl", "rename", "reorderdecls"}
+// exthelper is the typed rewrite (mechhelper.go): the second half of every eligible function moved into a new
+// helper that is handed the locals it uses; the loader folds such helpers back (foldtail.go).
+var mechKinds = []string{"invert", "nest", "merge", "chain", "tagswitch", "unelse", "elseify", "elseflat", "orsplit", "contguard", "wrapcont", "incdec", "vardecl", "rename", "reorderdecls", "exthelper"}
 
 func runMechanical(prop, repo, verifd string) []selfVariant {
 	var out []selfVariant
@@ -68,7 +70,13 @@ func runMechanical(prop, repo, verifd string) []selfVariant {
 			os.RemoveAll(tmp)
 			continue
 		}
-		n := mechRewrite(t, tmp)
+		n := 0
+		if t == "exthelper" {
+			n = mechExtractHelper(tmp, verifd)
+			skipNormalise = false
+		} else {
+			n = mechRewrite(t, tmp)
+		}
 		v.Note += fmt.Sprintf(" (%d statements rewritten)", n)
 		cmd := exec.Command(os.Args[0], "-prop", prop, "-tier", "quick", "-repo", tmp, "-verif", verifd)
 		cmd.Env = append(os.Environ(), "YV_SELFTEST=1")
